@@ -80,6 +80,7 @@ def targetOk : ArrK → List Int → Prop
   | .cl m, v => (∀ x ∈ v, 0 ≤ x) ∧ LeAll (v.map Int.toNat) m
   | .rt n, v => v.length = n
   | .rtv, _ => True
+  | .bnd cap, v => v.length ≤ cap
 
 theorem reshape_static_sound {i o : SInfo} {s t : Shape} {k : ArrK} {targ : List Int}
     (h : i.γ s) (hk : targetOk k targ) (hr : refReshape targ s = some t) (ho : transferReshape k i = some o) : o.γ t := by
@@ -99,6 +100,7 @@ theorem reshape_static_sound {i o : SInfo} {s t : Shape} {k : ArrK} {targ : List
     rw [hnn h1]; exact h2
   | rt n => simp only [targetOk] at hk; simpa [ArrK.toShapeK, ShapeK.γ, hlen] using hk
   | rtv => trivial
+  | bnd cap => simp only [targetOk] at hk; simpa [ArrK.toShapeK, ShapeK.γ, hlen] using hk
 
 example : refReshape [-1, 2] [2, 3] = some [3, 2] := by decide
 example : transferReshape (.rt 2) ⟨.clipped [2, 3], .any⟩ = some ⟨.fixedDim 2, .atMost 6⟩ := by decide
@@ -192,6 +194,7 @@ theorem tile_static_sound {i o : SInfo} {s : Shape} {k : ArrK} {reps : List Nat}
       | cl m => simpa [hsh] using hlen
       | rt n => simpa [hsh] using hlen
       | rtv => simpa [hsh] using hlen
+      | bnd cap => simpa [hsh] using hlen
     | clipped b => simpa [hsh] using hlen
     | fixedDim n => simpa [hsh] using hlen
     | boundedDim n => simpa [hsh] using hlen
@@ -199,6 +202,15 @@ theorem tile_static_sound {i o : SInfo} {s : Shape} {k : ArrK} {reps : List Nat}
   exact indexingInfo_sound hd (productK_sound hd)
 
 example : refTile [3, 1, 2] [2, 3] = [3, 2, 6] := by decide
+/-- repetitions in a `static_vector<int,4>` (bound = capacity) over a rank-2 operand: the result rank is bounded by 4, whatever
+    the run-time length (3, below the capacity, or 4, at it) -/
+example : transferTile (.bnd 4) ⟨.fixedDim 2, .any⟩ = some ⟨.boundedDim 4, .any⟩ ∧ (ArrK.bnd 4).γ [2, 2, 2] ∧ (ArrK.bnd 4).γ [2, 2, 2, 2] ∧
+    (⟨.boundedDim 4, .any⟩ : SInfo).γ (refTile [2, 2, 2] [2, 3]) ∧ (⟨.boundedDim 4, .any⟩ : SInfo).γ (refTile [2, 2, 2, 2] [2, 3]) := by
+  refine ⟨by decide, by simp [ArrK.γ], by simp [ArrK.γ], by decide, by decide⟩
+example : transferBroadcastTo (.bnd 4) ⟨.fixedDim 2, .any⟩ = some ⟨.boundedDim 4, .any⟩ ∧
+    transferReshape (.bnd 3) ⟨.clipped [2, 3], .atMost 6⟩ = some ⟨.boundedDim 3, .atMost 6⟩ ∧
+    transferPad (.bnd 5) ⟨.const [2, 3], .known 6⟩ = some ⟨.fixedDim 2, .any⟩ ∧
+    transferTranspose (some (.bnd 3)) ⟨.boundedDim 3, .any⟩ = some ⟨.boundedDim 3, .any⟩ := by decide
 example : transferTile (.rt 3) ⟨.boundedDim 2, .any⟩ = some ⟨.boundedDim 3, .any⟩ := by decide
 
 /-- admitted run-time values of the `axes` argument of transpose -/
@@ -252,6 +264,8 @@ theorem transpose_static_sound {i o : SInfo} {s t : Shape} {k : Option ArrK} {ax
                   exact indexingInfo_sound (by simpa [ShapeK.γ] using hfacts.1) hz
         | rtv => simp only [hk', Option.map_some, Option.some.injEq] at ho; subst ho
                  exact indexingInfo_sound (by simpa [ShapeK.γ] using hfacts.1) hz
+        | bnd cap => simp only [hk', Option.map_some, Option.some.injEq] at ho; subst ho
+                     exact indexingInfo_sound (by simpa [ShapeK.γ] using hfacts.1) hz
   | clipped b =>
     simp only [hk', ShapeK.γ] at hsh
     cases k with
@@ -282,6 +296,8 @@ theorem transpose_static_sound {i o : SInfo} {s t : Shape} {k : Option ArrK} {ax
                   exact indexingInfo_sound (by simp [ShapeK.γ, hfacts.1, hbl]) hz
         | rtv => simp only [hk', Option.map_some, Option.some.injEq] at ho; subst ho
                  exact indexingInfo_sound (by simp [ShapeK.γ, hfacts.1, hbl]) hz
+        | bnd cap => simp only [hk', Option.map_some, Option.some.injEq] at ho; subst ho
+                     exact indexingInfo_sound (by simp [ShapeK.γ, hfacts.1, hbl]) hz
   | fixedDim n =>
     simp only [hk'] at ho hlenK
     cases k <;> simp only [Option.map_some, Option.some.injEq] at ho <;> subst ho <;> exact indexingInfo_sound hlenK hz
